@@ -64,6 +64,19 @@ pub fn pairs(tier: Tier, max_ratio: f64) -> Vec<Pair> {
 
 pub const TRS: [f64; 3] = [0.65, 0.775, 0.9];
 pub const XS: [f64; 5] = [0.05, 0.275, 0.5, 0.725, 0.95];
+/// thorough lattices (supersets of the quick ones)
+pub fn trs(tier: Tier) -> Vec<f64> {
+    match tier {
+        Tier::Quick => TRS.to_vec(),
+        Tier::Thorough => vec![0.6, 0.65, 0.7, 0.775, 0.85, 0.9],
+    }
+}
+pub fn xs_lattice(tier: Tier) -> Vec<f64> {
+    match tier {
+        Tier::Quick => XS.to_vec(),
+        Tier::Thorough => vec![0.05, 0.15, 0.275, 0.4, 0.5, 0.6, 0.725, 0.85, 0.95],
+    }
+}
 pub const WS: [f64; 3] = [0.25, 0.5, 0.75];
 
 /// worst relative difference of the fugacities x_i phi_i between the two phases
